@@ -14,6 +14,8 @@ def jobs(tier, seed):
     J += mjobs.timeouts_jobs(tier)
     J += mjobs.wake_jobs(tier)
     J += mjobs.flush_jobs(tier)
+    # a request that stays live after a send attempt has a deadline registered, also when an allocation of the attempt fails
+    J += [j for j in mjobs.sendquery_oom_jobs(tier) if "_vc0_" in j["name"]]
     J.append(dict(name="evloop_step", harness="evloop_step.c", real=["src/lib/ares_library_init.c", "src/lib/dsa/ares_llist.c"],
                   support=["vp_rt.c", "valloc.c", "memloops.c", "asvp_ref.c"], unwind=4, backend="cadical", mem_gb=6,
                   replace=["ares_event_thread_cleanup"], replace_with=["evloop_cleanup_stub.c"],
